@@ -112,6 +112,20 @@ def scenarios(tier):
                 'actors': {'main': [['sched', 't', 2.0, 'f0'],
                                     ['play', 'r0', oc]]},
                 'horizon': 6.0}))
+    # S10: a plain thread schedules while a clock thread is inside a
+    # routine's awake call (the routine itself takes the lock again, which
+    # gives a preemption point inside the awake)
+    for c in ('s', 't'):
+        for d in (0.5, 0.25):
+            out.append(('S10', {
+                'clocks': clocks_for(c), 'funcs': {'f0': {}, 'f1': {}},
+                'routines': {'r0': [['yield', 0.5],
+                                    ['sched', c, 0.25, 'f0'], ['log'],
+                                    ['yield', 0.5]]},
+                'actors': {'main': [['play', 'r0', c, 0]],
+                           'X': [['sleep', 0.25 if c == 't' else 0.5],
+                                 ['sched', c, d, 'f1']]},
+                'horizon': 5.0}))
     # S9: a task on one clock schedules onto another clock
     out.append(('S9', {
         'clocks': {'s': ['system'], 't': ['tempo', 2.0]},
@@ -206,11 +220,28 @@ def check_trace(prog, res):
     expect_add = {}   # name -> (queue, expected prio) after a numeric return
     cleared = {}      # queue -> names snapshot at clear-begin
     horizon = prog.get('horizon', 4.0)
+    calls = {}        # task name -> (queue, expected prio) of a pending call
+    actors = set(prog.get('actors', {}))
     for e in res['trace']:
         k = e[0]
+        if k == 'sched-call' and e[1] in actors:
+            _, who, cid, delta, fid, t0 = e
+            q0 = _q(prog, cid)
+            if isinstance(delta, list):
+                calls[fid] = (q0, delta[1])
+            elif qkind[q0] == 'tempo':
+                calls[fid] = (q0, tref[q0].s2b(t0) + delta)
+            else:
+                calls[fid] = (q0, t0 + delta)
         if k == 'add':
             _, q, prio, name, seq, phys = e
             pending.setdefault(q, {})[name] = [prio, seq, phys]
+            want = calls.pop(name, None)
+            if want is not None and prio != float('inf') and \
+                    (want[0] != q or want[1] != prio):
+                bad('scheduled-time-wrong', list(want), [q, prio],
+                    f'{name}: sched(delta) from a plain thread must be '
+                    'relative to the physical present of the call')
             exp = expect_add.pop(name, None)
             if exp is not None:
                 eq, eprio = exp
